@@ -12,6 +12,7 @@ namespace simthread
 {
   extern unsigned created;
   extern unsigned would_terminate;
+  extern unsigned worker_exceptions;
 }
 
 namespace std
@@ -84,7 +85,7 @@ namespace std
           }
         catch (...)
           {
-            ++simthread::would_terminate; // an exception escaping a std::thread terminates
+            ++simthread::worker_exceptions; // an exception escaping a std::thread terminates the program
           }
       }
       int id = -1;
